@@ -178,7 +178,51 @@ func (e *preambleEngine) runX(payload string) (string, string) {
 		v, err := lisp.READWithPreamble(text, nil, e.theEnv())
 		return renderReadResult(v, err)
 	})
-	return "text=T " + via + " || " + direct, extra
+	obs := "text=T " + via + " || " + direct
+	// AddPreamble is a FUNCTION of (source, assignment): an embedder that refills a row buffer / updates a parameter table in
+	// place between two calls gets the second assignment transported, whatever the first call was
+	if why := preambleReuse(e.theEnv()); why != "" {
+		obs += "\t!" + why
+	}
+	return obs, extra
+}
+
+var preambleReuseDone = map[int]bool{}
+
+// preambleReuse: once per size, the same collection OBJECT under the same placeholder name with its content changed in place
+func preambleReuse(ns EnvType) string {
+	for _, size := range []int{3, 16, 40, 300} {
+		if preambleReuseDone[size] {
+			continue
+		}
+		preambleReuseDone[size] = true
+		buf := make([]MalType, size)
+		table := map[string]MalType{}
+		for round := 0; round < 3; round++ {
+			for i := range buf {
+				buf[i] = round*1000 + i
+			}
+			table["ʞattempt"] = round
+			for i := 0; i < size; i++ {
+				table["k"+strconv.Itoa(i)] = i
+			}
+			for _, v := range []MalType{Vector{Val: buf}, List{Val: buf}, HashMap{Val: table}} {
+				text, err := lisp.AddPreamble("[$ROW]", map[string]MalType{"$ROW": v})
+				if err != nil {
+					return "AddPreamble failed: " + oneLine(err.Error())
+				}
+				got, err := lisp.READWithPreamble(text, nil, ns)
+				if err != nil {
+					return "READWithPreamble of an AddPreamble text failed: " + oneLine(err.Error())
+				}
+				gv, ok := got.(Vector)
+				if !ok || len(gv.Val) != 1 || !sameData(gv.Val[0], v) {
+					return "the same collection object (" + strconv.Itoa(size) + " elements) passed again under the same placeholder name after its content changed in place was transported with its OLD content (round " + strconv.Itoa(round) + ")"
+				}
+			}
+		}
+	}
+	return ""
 }
 
 func (e *preambleEngine) classify(payload, obs string) string {
